@@ -23,3 +23,7 @@ pub fn dedup_usize(v: &mut Vec<usize>)
     ensures sorted_usize(old(v)@) ==> strictly_sorted_usize(final(v)@),
             forall|x: usize| final(v)@.contains(x) == old(v)@.contains(x), final(v)@.len() <= old(v)@.len(),
 { unimplemented!() }
+// alloc::collections::BTreeMap, used only through the operations given here
+#[verifier::external_body] #[verifier::reject_recursive_types(K)] #[verifier::reject_recursive_types(V)]
+pub struct BTreeMap<K, V> { _k: core::marker::PhantomData<(K, V)> }
+impl<K, V> View for BTreeMap<K, V> { type V = Map<K, V>; uninterp spec fn view(&self) -> Map<K, V>; }
